@@ -40,24 +40,45 @@ def check(ctx):
 
     for meth in ('to_dict', 'to_list'):
         fi = ctx.repo.func(f"Tract.{meth}")
+        construct = f"Tract.{meth}: value = getattr(self, att, '<att>: n/a')"
+        gets = [(c, fi) for c in ast.walk(fi.node) if isinstance(c, ast.Call) and dotted(c.func) == 'getattr']
+        delegates = [c for c in ast.walk(fi.node) if isinstance(c, ast.Call)
+                     and dotted(c.func) in ('self.to_list', 'self.to_dict')]
+        if not gets and delegates:
+            ctx.ok('TBL', construct, f"delegates to {dotted(delegates[0].func)}")
+        elif not gets:
+            ctx.undecided('TBL', construct, 'no getattr and no delegation recognised')
+        for g, _fi in gets:
+            if len(g.args) < 3 and not any(k.arg == 'default' for k in g.keywords):
+                ctx.violation('TBL', construct,
+                              f"`{norm(g)}`: the placeholder is no longer the getattr default, so an unknown "
+                              f"attribute name raises / a documented attribute whose real value is None (or falsy) "
+                              f"is exported as 'n/a'",
+                              key=f"TBL|Tract.{meth}|getattr", where=common.loc(fi, g))
+                continue
+            d = g.args[2]
+            if isinstance(d, ast.Constant) and not (isinstance(d.value, str) and 'n/a' in d.value):
+                ctx.violation('TBL', construct,
+                              f"`{norm(g)}`: a missing attribute is signalled by the ordinary value {d.value!r}, so a "
+                              f"documented attribute whose real value is {d.value!r} cannot be told from a missing one "
+                              f"(it is exported as the 'n/a' placeholder, or the placeholder is lost)",
+                              key=f"TBL|Tract.{meth}|getattr", where=common.loc(fi, g))
+                continue
+            holder = d
+            while holder is not None and not isinstance(holder, (ast.FunctionDef, ast.AsyncFunctionDef)):
+                holder = holder._parent
+            texts = [norm(d)]
+            if isinstance(d, ast.Name) and holder is not None:
+                texts += [norm(n.value) for n in ast.walk(holder) if isinstance(n, ast.Assign)
+                          and norm(n.targets[0]) == d.id]
+            ctx.shape(any('n/a' in t for t in texts), 'TBL', construct, f"`{norm(g)}`",
+                      why=f"default `{norm(d)}` not recognised as the '<att>: n/a' placeholder")
         rets = [n for n in walk_local(fi.node) if isinstance(n, ast.Return)]
         if len(rets) != 1 or not isinstance(rets[0].value, (ast.DictComp, ast.ListComp)):
-            # not the comprehension form: look for post-processing
-            gets = [c for c in walk_local(fi.node) if isinstance(c, ast.Call) and dotted(c.func) == 'getattr']
-            if gets and (len(gets[0].args) < 3 or 'n/a' not in norm(gets[0].args[2])):
-                ctx.violation('TBL', f"Tract.{meth}: value = getattr(self, att, '<att>: n/a')",
-                              f"`{norm(gets[0])}`: the placeholder is no longer the getattr default, so a "
-                              f"documented attribute whose real value is None (or falsy) is exported as 'n/a'",
-                              key=f"TBL|Tract.{meth}|getattr", where=common.loc(fi, gets[0]))
-                continue
-            raise AnalysisError(f"Tract.{meth}: unrecognised shape")
+            ctx.undecided('TBL', f"Tract.{meth}: one entry per requested attribute, in order",
+                          'not the single-comprehension form')
+            continue
         comp = rets[0].value
-        val = comp.value if isinstance(comp, ast.DictComp) else comp.elt
-        ok = isinstance(val, ast.Call) and dotted(val.func) == 'getattr' and len(val.args) == 3 \
-            and norm(val.args[0]) == 'self' and norm(val.args[1]) == 'att' \
-            and isinstance(val.args[2], ast.JoinedStr) and 'n/a' in norm(val.args[2])
-        ctx.check(ok, 'TBL', f"Tract.{meth}: value = getattr(self, att, '<att>: n/a')",
-                  detail_bad=f"value expression is `{norm(val)}`", key=f"TBL|Tract.{meth}|getattr")
         gen = comp.generators[0]
         ctx.shape(len(comp.generators) == 1 and norm(gen.iter) == 'attributes' and not gen.ifs, 'TBL',
                   f"Tract.{meth}: one entry per requested attribute, in order")
